@@ -88,11 +88,17 @@ def make_case(cid, rng, memk, tabk, nglob_imp, nglob_def, ndata, nelem, start, t
     data = []
     if has_mem:
         for d in range(ndata):
-            kind = rng.choice(["const", "const", "glob", "passive", "empty", "overlap"])
+            kind = rng.choice(["const", "const", "glob", "passive", "empty", "overlap", "zeros"])
             if kind == "glob" and not nglob_imp:
                 kind = "const"
             bytes_ = [rng.randrange(1, 256) for _ in range(rng.choice([1, 2, 5, 9]))]
-            if kind == "passive":
+            if kind == "zeros":
+                # an all-zero (or partly zero) segment laid over what earlier segments wrote: order matters
+                prev = [x for x in data if x.get("mode") == "active" and x["offset"][0] == "i32.const" and x["bytes"]]
+                base = int.from_bytes(bytes(prev[-1]["offset"][1]), "little") if prev else 4
+                data.append({"mode": "active", "offset": ["i32.const", b32(base + rng.choice([0, 1]))],
+                             "bytes": [0] * rng.choice([1, 2, 4]) + ([0x5A] if rng.random() < 0.3 else [])})
+            elif kind == "passive":
                 data.append({"mode": "passive", "bytes": bytes_})
             elif kind == "empty":
                 data.append({"mode": "active", "offset": ["i32.const", b32(rng.choice([0, 65536]))], "bytes": []})
